@@ -87,6 +87,16 @@ class Snap(object):
             if hasattr(s, 'data') and s.data is a:
                 who = {'uid': self.u(s), 'id': s.id}
                 break
+        if who is None:
+            # not the very array object of a source (aliasing is not what this snapshot is about): the source
+            # holding the same values
+            for s in geom.sourceById.values():
+                try:
+                    if hasattr(s, 'data') and s.data.shape == a.shape and numpy.array_equal(s.data, a, equal_nan=True):
+                        who = {'uid': self.u(s), 'id': s.id, 'by': 'value'}
+                        break
+                except Exception:  # noqa
+                    pass
         return {'src': who, 'shape': list(a.shape), 'data': fkeys(a)}
 
     def prim(self, p, geom):
